@@ -423,6 +423,7 @@ class Interp(object):
         self.dests = {}
         self.ser_calls = []
         self.files = {}
+        self.passthrough_keys = set()
         self.crashfile = None
         self.on_return = None
         self.gate = None          # scheduler hook: called before every model-level operation
@@ -498,7 +499,15 @@ class Interp(object):
 
     def make_fields(self, l):
         from eliot import Field
-        return [Field(key_name(k), self.make_serfn(k, f), "") for k, f in l]
+        out = []
+        for k, f in l:
+            if f[0] == "id" and k % 2 == 0:
+                # the library's own pass-through field (Field.for_types): accepts every JSON type here
+                out.append(Field.for_types(key_name(k), [str, int, float, bool, list, dict, None], ""))
+                self.passthrough_keys.add(k)
+            else:
+                out.append(Field(key_name(k), self.make_serfn(k, f), ""))
+        return out
 
     def message_type(self, t, ser):
         from eliot import MessageType
